@@ -43,6 +43,15 @@ theorem World.g_headUtility {w w1 : World U} (sid inj : Nat) (hd : Bool) (h : Gr
   repeat' split
   all_goals repeat grow1 [hC _ _ _ rfl]
 
+theorem World.g_headUtilityWrap {w w1 : World U} (sid inj : Nat) (hd : Bool) (h : GrowsBy P w w1) :
+    GrowsBy P w (w1.headUtilityWrap sid inj hd).1 := by
+  unfold World.headUtilityWrap
+  split
+  · exact World.g_headUtility hC sid inj true h
+  · dsimp only
+    split
+    all_goals repeat grow1 [hC _ _ _ rfl]
+
 theorem World.g_headRank {w w1 : World U} (sid inj : Nat) (hd : Bool) (h : GrowsBy P w w1) :
     GrowsBy P w (w1.headRank sid inj hd).1 := by
   unfold World.headRank
@@ -157,6 +166,7 @@ theorem Node.g_reportRandomize {w : World U} : (n : Node) → (w1 : World U) →
     repeat (first
       | grow1 [hC _ _ _ rfl]
       | with_reducible apply World.g_headUtility hC
+      | with_reducible apply World.g_headUtilityWrap hC
       | with_reducible apply World.g_resolveRandom
       | with_reducible apply Subs.g_reportRankAll hC
       | with_reducible apply Subs.g_reportRandomizeTop)
@@ -165,6 +175,7 @@ theorem Node.g_reportRandomize {w : World U} : (n : Node) → (w1 : World U) →
     repeat (first
       | grow1 [hC _ _ _ rfl]
       | with_reducible apply World.g_headUtility hC
+      | with_reducible apply World.g_headUtilityWrap hC
       | with_reducible apply Subs.g_reportRandomizeAll)
 theorem Subs.g_reportRandomizeAll {w : World U} : (s : Subs) → (w1 : World U) → World.GrowsBy P w w1 →
     World.GrowsBy P w (s.reportRandomizeAll w1).2.1
